@@ -23,7 +23,8 @@ RULE = ("product of (arrays 0-3D [4D thorough], each axis one of 7 kind/order va
         "ndarrays, masks, numpy scalar) x spellings (a[], take, dict by name/position, axis=, .loc, .sel, keepdims) x "
         "option indexing.by in {label, position}; position-mode menu through .ix/.iloc/.isel/indexing='position'; "
         "tolerance grid (queries on a quarter-step grid x tol in {0,q,h,1,inf}; boundary queries: empty selection, NaN, axis without labels, "
-        "int8/int16/int32 labels whose distances do not fit the type); every read leaves the caller's index objects unchanged and answers "
+        "int8/int16/int32 and unsigned labels, a tolerance attached to the axis vs the call's own incl. 0); unsigned position arrays; lists of labels "
+        "of another type; object-dtype cells under a fully scalar index; every read leaves the caller's index objects unchanged and answers "
         "the same when they are re-used; non-trivial = at least one "
         "dimension is indexed by something else than the full slice")
 ASSUMPTIONS = ["reference model mc/ref.py (first-match lookup, nearest-within-tol, orthogonal selection by nested loops)",
